@@ -532,6 +532,62 @@ fn main() {
                 let v = serde_json::json!({ "statics": st.statics, "mods": st.mods });
                 (v.to_string(), (1usize, src.lines().count()))
             }
+            "await_match" => {
+                // R23: a closure argument of the exact shape
+                //     |x| { let <fut> = <user_fn>(x); async move { match <fut>.await { ARMS } } }
+                // becomes  fn <as_fn>(<param>: <param_ty>) -> <ret> { match <param> { ARMS } } : the mapping applied to the
+                // awaited outcome of the user's future. Any other shape is refused (anchor-lost).
+                let (fsig, block, _attrs, _span, _shell) = match find_fn(&file, item) {
+                    Some(x) => x,
+                    None => fail("anchor-lost", format!("{}: fn {:?} in {}", name, s(item, "ident"), file_rel)),
+                };
+                let call = s(item, "call").expect("call");
+                let nth = item.get("nth").and_then(|x| x.as_u64()).unwrap_or(0) as usize;
+                let arg = item.get("arg").and_then(|x| x.as_u64()).unwrap_or(0) as usize;
+                let user_fn = s(item, "user_fn").expect("user_fn");
+                let mut finder = ClosureFinder { call: &call, nth, arg, seen: 0, found: None };
+                finder.visit_block(&block);
+                let clo = match finder.found {
+                    Some(c) => c,
+                    None => fail("anchor-lost", format!("{}: closure arg {} of call #{} `{}` in fn {}", name, arg, nth, call, fsig.ident)),
+                };
+                let span = full_span(&clo);
+                let bad = |why: &str| -> ! { fail("anchor-lost", format!("{}: closure of `{}` in fn {} does not have the shape `let f = {}(..); async move {{ match f.await {{..}} }}` ({})", name, call, fsig.ident, user_fn, why)) };
+                let body = match &*clo.body { Expr::Block(b) => b.block.clone(), _ => bad("body is not a block") };
+                if body.stmts.len() != 2 { bad("not exactly two statements"); }
+                let fut_name = match &body.stmts[0] {
+                    Stmt::Local(l) => {
+                        let id = match &l.pat { Pat::Ident(pi) => pi.ident.clone(), _ => bad("first statement binds a pattern") };
+                        match l.init.as_ref().map(|i| &*i.expr) {
+                            Some(Expr::Call(c)) => match &*c.func { Expr::Path(p_) if p_.path.is_ident(&user_fn) => {}, _ => bad("first statement does not call the user's function") },
+                            _ => bad("first statement is not a call"),
+                        }
+                        id
+                    }
+                    _ => bad("first statement is not a let"),
+                };
+                let m = match &body.stmts[1] {
+                    Stmt::Expr(Expr::Async(a), None) => {
+                        if a.block.stmts.len() != 1 { bad("async block has more than one statement"); }
+                        match &a.block.stmts[0] { Stmt::Expr(Expr::Match(m), None) => m.clone(), _ => bad("async block is not a single match") }
+                    }
+                    _ => bad("second statement is not an async block"),
+                };
+                match &*m.expr { Expr::Await(aw) => match &*aw.base { Expr::Path(p_) if p_.path.is_ident(&fut_name) => {}, _ => bad("the match is not on the awaited future of the user's call") }, _ => bad("the match is not on an await") }
+                let param = Ident::new(&s(item, "param").unwrap_or("outcome".into()), Span::call_site());
+                let pty: Type = syn::parse_str(&s(item, "param_ty").expect("param_ty")).unwrap();
+                let ret: Type = syn::parse_str(&s(item, "ret").expect("ret")).unwrap();
+                let gen: TokenStream = s(item, "generics").map(|g| syn::parse_str(&g).unwrap()).unwrap_or_default();
+                let as_fn = s(item, "as_fn").unwrap_or(name.clone());
+                let fid = Ident::new(&as_fn, Span::call_site());
+                let mut mm = m.clone();
+                mm.expr = Box::new(parse_quote! { #param });
+                let mut blk: Block = parse_quote! { { #mm } };
+                rules::apply_all(&mut blk, item, &mut fired, &name);
+                rules::mark_ret(&mut blk, &as_fn, false);
+                fired.push("R23-match-on-awaited-user-future".into());
+                (rustfmt(&quote! { fn #fid #gen (#param: #pty) -> vx_ret!(#ret) #blk }.to_string()), span)
+            }
             "serde_attrs" => {
                 // syntactic side condition (C17): the derive list of a type and every `serde(..)` attribute on the type,
                 // its variants and its fields, with `cfg_attr(cond, ..)` expanded under the unit's features.
